@@ -1,13 +1,202 @@
-//! C05 seeds, field inventory and entry points for "wdl" (stub: not built yet).
-use crate::seed::{Aux, Seed};
-use crate::worker::Runner;
+//! C05 seeds, field inventory and entry points for WDL (low-resolution world map).
+//!
+//! All seeds are produced by the crate's own `WdlParser::write` from a `WdlFile` with a handful
+//! of map tiles (MARE heightmaps, MAHO hole masks where the version has them), WMO name/placement
+//! chunks (WotLK..WoD) or the Legion ML** placement chunks. Chunk tags are stored reversed on disk
+//! ("REVM"). The inventory covers MVER, the MAOF offsets that point at MARE chunks (absolute file
+//! offsets), MWID name offsets into MWMO, the MWMO terminator and the id/flag words of the first
+//! MODF / MLDD / MLMD records.
+use crate::seed::{add_chunk_seq, Aux, Seed};
+use crate::worker::{errname, Runner};
+use std::io::Cursor;
+use wow_wdl::parser::WdlParser;
+use wow_wdl::types::{
+    BoundingBox, HeightMapTile, HolesData, M2Placement, M2VisibilityInfo, ModelPlacement, Vec3d, WdlFile,
+};
+use wow_wdl::version::WdlVersion;
 
-pub fn seed_names(_thorough: bool) -> Vec<String> {
-    Vec::new()
+pub fn seed_names(thorough: bool) -> Vec<String> {
+    let mut v = vec!["wotlk-wmo".to_string(), "legion-ml".to_string()];
+    if thorough {
+        v.push("vanilla-mare".into());
+        v.push("mop-wmo-dense".into());
+        v.push("latest-empty".into());
+    }
+    v
+}
+
+fn tile(k: i16) -> HeightMapTile {
+    let mut t = HeightMapTile::new();
+    for (i, v) in t.outer_values.iter_mut().enumerate() {
+        *v = k * 10 + (i % 17) as i16;
+    }
+    for (i, v) in t.inner_values.iter_mut().enumerate() {
+        *v = -k + (i % 16) as i16;
+    }
+    t
+}
+
+fn holes(k: usize) -> HolesData {
+    let mut h = HolesData::new();
+    h.set_hole(k % 16, (k * 3) % 16, true);
+    h
+}
+
+fn placement(id: u32, wmo_id: u32) -> ModelPlacement {
+    ModelPlacement {
+        id,
+        wmo_id,
+        position: Vec3d::new(100.0 + id as f32, 200.0, 50.0),
+        rotation: Vec3d::new(0.0, 1.5, 0.0),
+        bounds: BoundingBox::new(Vec3d::new(-10.0, -10.0, 0.0), Vec3d::new(10.0, 10.0, 30.0)),
+        flags: 1,
+        doodad_set: 2,
+        name_set: 1,
+        padding: 0,
+    }
+}
+
+fn m2p(id: u32, m2: u32) -> M2Placement {
+    M2Placement {
+        id,
+        m2_id: m2,
+        position: Vec3d::new(1.0, 2.0, 3.0),
+        rotation: Vec3d::new(0.0, 0.5, 0.0),
+        scale: 1.0,
+        flags: 3,
+    }
+}
+
+fn vis() -> M2VisibilityInfo {
+    M2VisibilityInfo { bounds: BoundingBox::new(Vec3d::new(-1.0, -1.0, -1.0), Vec3d::new(1.0, 1.0, 1.0)), radius: 40.0 }
+}
+
+fn model(name: &str) -> (WdlFile, WdlVersion) {
+    let (ver, tiles): (WdlVersion, Vec<(u32, u32)>) = match name {
+        "wotlk-wmo" => (WdlVersion::Wotlk, vec![(0, 0), (1, 0), (32, 32), (10, 20), (63, 63)]),
+        "legion-ml" => (WdlVersion::Legion, vec![(5, 0), (6, 0), (31, 30), (62, 63)]),
+        "vanilla-mare" => (WdlVersion::Vanilla, vec![(0, 0), (7, 3), (63, 63)]),
+        "mop-wmo-dense" => (WdlVersion::Mop, (0..24u32).map(|i| ((i * 5) % 64, (i * 11) % 64)).collect()),
+        "latest-empty" => (WdlVersion::Latest, vec![]),
+        _ => wverif_common::tool_error(&format!("wdl: unknown seed {name}")),
+    };
+    let mut f = WdlFile::with_version(ver);
+    for (k, &(x, y)) in tiles.iter().enumerate() {
+        f.heightmap_tiles.insert((x, y), tile(k as i16 + 1));
+        if ver.has_maho_chunk() && (k % 2 == 0 || name == "mop-wmo-dense") {
+            f.holes_data.insert((x, y), holes(k));
+        }
+    }
+    if ver.has_wmo_chunks() {
+        f.wmo_filenames = vec![
+            "World\\wmo\\Azeroth\\Buildings\\Tower\\Tower.wmo".to_string(),
+            "World\\wmo\\Dungeon\\Cave\\Cave01.wmo".to_string(),
+            "x.wmo".to_string(),
+        ];
+        let mut off = 0u32;
+        for n in &f.wmo_filenames {
+            f.wmo_indices.push(off);
+            off += n.len() as u32 + 1;
+        }
+        f.wmo_placements = vec![placement(1, 0), placement(2, 1), placement(3, 2)];
+    }
+    if ver.has_ml_chunks() && name != "latest-empty" {
+        f.m2_placements = vec![m2p(1, 189_000), m2p(2, 189_001)];
+        f.m2_visibility = vec![vis(), vis()];
+        f.wmo_legion_placements = vec![m2p(10, 107_000)];
+        f.wmo_legion_visibility = vec![vis()];
+    }
+    (f, ver)
 }
 
 pub fn build(name: &str) -> Seed {
-    wverif_common::tool_error(&format!("wdl: unknown seed {name}"))
+    let (file, ver) = model(name);
+    let mut out = Cursor::new(Vec::new());
+    WdlParser::with_version(ver).write(&mut out, &file).expect("WdlParser::write");
+    let bytes = out.into_inner();
+    let len = bytes.len();
+    let mut s = Seed::new("wdl", name, bytes);
+    let chunks = add_chunk_seq(&mut s, "top", 0, len, vec![], true);
+    let find = |t: &str| chunks.iter().find(|c| c.2 == t).map(|c| (c.0, c.1));
+
+    if let Some((o, _)) = find("MVER") {
+        s.field(o + 8, 4, "index", "MVER.version");
+    }
+    // MWMO / MWID / MODF
+    let mwmo = find("MWMO");
+    if let Some((o, tot)) = mwmo {
+        if tot > 8 {
+            s.field_ex(o + tot - 1, 1, "term", "MWMO.last_nul", o + tot, 1, None);
+            // first terminator (end of the first name)
+            if let Some(p) = s.bytes[o + 8..o + tot].iter().position(|&b| b == 0) {
+                if o + 8 + p != o + tot - 1 {
+                    s.field_ex(o + 8 + p, 1, "term", "MWMO.first_nul", o + 8 + p + 1, 1, None);
+                }
+            }
+        }
+    }
+    if let Some((o, tot)) = find("MWID") {
+        let n = (tot - 8) / 4;
+        let base = mwmo.map(|m| m.0 + 8).unwrap_or(o + tot);
+        for i in 0..n {
+            s.field_ex(o + 8 + 4 * i, 4, "stroff", format!("MWID[{i}]"), base, 1, None);
+        }
+    }
+    if let Some((o, tot)) = find("MODF") {
+        let n = (tot - 8) / 64;
+        for i in 0..n {
+            if i == 0 || i + 1 == n {
+                let e = o + 8 + 64 * i;
+                s.field(e, 4, "index", format!("MODF[{i}].name_id"));
+                s.field(e + 4, 4, "index", format!("MODF[{i}].unique_id"));
+                s.field(e + 56, 2, "index", format!("MODF[{i}].flags"));
+                s.field(e + 58, 2, "index", format!("MODF[{i}].doodad_set"));
+                s.field(e + 60, 2, "index", format!("MODF[{i}].name_set"));
+            }
+        }
+    }
+    for t in ["MLDD", "MLMD"] {
+        if let Some((o, _)) = find(t) {
+            s.field(o + 8, 4, "index", format!("{t}[0].unique_id"));
+            s.field(o + 12, 4, "index", format!("{t}[0].file_id"));
+            s.field(o + 44, 4, "index", format!("{t}[0].flags"));
+        }
+    }
+    // MAOF: absolute offsets of the MARE chunks
+    if let Some((o, tot)) = find("MAOF") {
+        let n = (tot - 8) / 4;
+        let nz: Vec<usize> = (0..n).filter(|&i| s.u32_at(o + 8 + 4 * i) != 0).collect();
+        let mut pick: Vec<usize> = Vec::new();
+        for &i in nz.iter().take(2) {
+            pick.push(i);
+        }
+        if let Some(&l) = nz.last() {
+            if !pick.contains(&l) {
+                pick.push(l);
+            }
+        }
+        // two entries that are zero (no tile): the first and the last zero entry
+        let zeros: Vec<usize> = (0..n).filter(|&i| s.u32_at(o + 8 + 4 * i) == 0).collect();
+        if let Some(&z) = zeros.first() {
+            pick.push(z);
+        }
+        if let Some(&z) = zeros.last() {
+            if !pick.contains(&z) {
+                pick.push(z);
+            }
+        }
+        for i in pick {
+            s.field_ex(o + 8 + 4 * i, 4, "offset", format!("MAOF[{i}]"), 0, 1, None);
+        }
+    }
+    s
 }
 
-pub fn run(_r: &mut Runner, _bytes: &[u8], _aux: &Aux) {}
+pub fn run(r: &mut Runner, bytes: &[u8], _aux: &Aux) {
+    // the parser's configured version only selects whether a MAHO chunk is looked for behind a
+    // MARE chunk; run the default (Latest: with MAHO) and the Vanilla (without) variant
+    r.call("WdlParser::parse", || WdlParser::new().parse(&mut Cursor::new(bytes)).map(|_| ()).map_err(errname));
+    r.call("WdlParser::parse", || {
+        WdlParser::with_version(WdlVersion::Vanilla).parse(&mut Cursor::new(bytes)).map(|_| ()).map_err(errname)
+    });
+}
